@@ -126,6 +126,11 @@ def check_slot_writers(ctx):
                 writes.append((e, d, e.data['name']))
             if e.data['name'] == 'builtins.open' and (open_mode(e) or 'r')[0] in 'wax':
                 writes.append((e, e.data['pos'][0] if e.data['pos'] else e.data['kw'].get('file'), f"open(mode={open_mode(e)})"))
+            if e.data['name'] in ('os.open', 'os.mknod', 'os.mkfifo'):
+                # a file created through the descriptor interface (a lock file, a marker): it stays behind when the process dies
+                flags = e.data['kw'].get('flags', e.data['pos'][1] if len(e.data['pos']) > 1 else None)
+                if e.data['name'] != 'os.open' or any(w in str(flags) for w in ('O_CREAT', 'O_WRONLY', 'O_RDWR', 'O_APPEND', 'O_TRUNC')):
+                    writes.append((e, e.data['pos'][0] if e.data['pos'] else e.data['kw'].get('path'), f"{e.data['name']}({str(flags)[:40]})"))
         ctx.floor('C19.1', len(writes), 2, 'file-writing effects in the download path')
         # concurrent loaders: creating the slot's directory must be idempotent (exist_ok=True), not check-then-create
         mk = [e for e in libs if e.data['name'] in ('os.makedirs', 'os.mkdir')]
